@@ -1,11 +1,12 @@
 """Thorough-only extras for C19: Miri (UB, data races, a sixth 'build' to compare with) and
-ThreadSanitizer on an instrumented std."""
+ThreadSanitizer on an instrumented std, valgrind memcheck as a seventh configuration."""
 import sanit
 
 
 def run(drv, seed):
     extra, viol, inc = {}, [], []
-    for fn in (lambda: sanit.miri(drv, "C19", seed, nproc=12, per=40, many_seeds=4), lambda: sanit.tsan(drv, seed)):
+    for fn in (lambda: sanit.miri(drv, "C19", seed, nproc=12, per=40, many_seeds=4), lambda: sanit.tsan(drv, seed),
+               lambda: sanit.memcheck(drv, "C19", seed + 1000, nproc=16, per=8000)):
         e, v, i = fn()
         extra.update(e)
         viol += v
